@@ -70,6 +70,12 @@ def templates(cfg):
     T("left.sliced_right", sliced_right)
     T("inner.then_summarize", lambda p, t, u: t >> p.inner_join(u, t.a == u.a) >> p.group_by(t.a) >> p.summarize(s=u.x.sum(), n=p.count()))
     T("left.then_window", lambda p, t, u: t >> p.left_join(u, t.a == u.a) >> p.mutate(r=u.x.sum(partition_by=t.a)))
+    TUV = [("t", {"a": INT, "b": INT}), ("u", {"k": INT, "x": INT}), ("v", {"m": INT, "y": INT})]
+    T("three.inner_then_full", lambda p, t, u, v: t >> p.inner_join(u >> p.filter(u.x > 0), t.a == u.k) >> p.full_join(v, t.b == v.m), TUV, nmax=2)
+    T("three.left_then_inner", lambda p, t, u, v: t >> p.left_join(u, t.a == u.k) >> p.inner_join(v, u.x == v.m), TUV, nmax=2)
+    T("three.inner_then_left_filtered", lambda p, t, u, v: t >> p.inner_join(u, t.a == u.k) >> p.left_join(v >> p.filter(v.y > 0), t.b == v.m), TUV, nmax=2)
+    T("three.filter_then_full", lambda p, t, u, v: t >> p.filter(t.a > 0) >> p.alias("f") >> p.full_join(u, p.C.a == u.k), TUV, nmax=2)
+
     def self_join(p, t, u):
         s = t >> p.alias("s")
         return t >> p.inner_join(s, t.a == s.b)
